@@ -45,7 +45,11 @@ def obligation_formulas(ob, slim=0):
              for h in getattr(ob, 'hints', []) if h.proved]
     goal = z3.Not(to_z3(ob.goal))
     hyps = list(ob.pc) + list(ob.facts or [])
-    if slim:
+    if slim == 'pc':
+        # path condition + the facts flagged as lemma instances only (the derived library facts are dropped)
+        lem = getattr(ob, 'lemma_ids', set())
+        hyps = list(ob.pc) + [f for f in (ob.facts or []) if f.get_id() in lem]
+    elif slim:
         want = _syms(goal)
         for h in hints:
             want |= _syms(h)
@@ -203,7 +207,7 @@ def _decide(args):
         if st4 == 'unsat':
             return Verdict(ob, 'unsat', 'z3-5.1/qf-core', total)
     # relevance-filtered query (fewer hypotheses: sound for unsat, never used for sat)
-    for lvl in (1, 2):
+    for lvl in (1, 2, 3):
         sp = path.replace('.smt2', '.slim%d.smt2' % lvl)
         if os.path.exists(sp):
             st3, sec3, _ = _run_cli([Z3_CLI, '-T:%d' % max(3, timeout_s // 2)], sp, max(3, timeout_s // 2))
@@ -251,6 +255,9 @@ def discharge(obligations, timeout_s=10, jobs=16, keep_dir=None):
                     for lvl in (1, 2):
                         with open(path.replace('.smt2', '.slim%d.smt2' % lvl), 'w') as fh:
                             fh.write(build_solver(ob, slim=lvl).to_smt2())
+                    if ob.facts:
+                        with open(path.replace('.smt2', '.slim3.smt2'), 'w') as fh:
+                            fh.write(build_solver(ob, slim='pc').to_smt2())
                 t = timeout_s if ob.kind != 'hint' else min(timeout_s, 10)
                 work.append((k, (ob, path, t)))
             with ThreadPoolExecutor(max_workers=jobs) as ex:
